@@ -160,9 +160,9 @@ ALG_OCTETS = (0, 1, 2, 3, 4, 5, 6, 7, 8, 9, 10, 11, 12, 13, 14, 100, 255)
 @ob('O4.4', 'message level: with the right passphrase the original literal body comes back; with a wrong passphrase PGPMessage.decrypt raises '
             'whatever the cipher produces under the wrong key (unless those octets themselves satisfy the integrity predicate)',
     'body of 0..2 symbolic octets; wrong passphrase "" or "q"; what the wrong key decrypts to: a 17-octet session-key block whose cipher octet ranges over 17 values '
-    '(all known ids and unknown ones) with symbolic key octets, and a fully symbolic 32-octet data block (for 16-octet-block ciphers restricted to blocks whose MDC marker octet is wrong: '
+    '(all known ids and unknown ones) with symbolic key octets, and a fully symbolic 32-octet data block (for known ciphers restricted to blocks whose MDC marker octet is wrong: '
     'the accepting case is O4.1; parsing accepted garbage as packets explodes the path tree)',
-    cond_timeout={'q': 280, 't': 900}, partitions=[['same']] + [['not same', 'ai == %d' % i] + (['g2[10] != 0xD3'] if ALG_OCTETS[i] in (7, 8, 9, 10, 11, 12, 13) else []) for i in range(len(ALG_OCTETS))])
+    cond_timeout={'q': 280, 't': 900}, partitions=[['same']] + [['not same', 'ai == %d' % i] + (['g2[10] != 0xD3'] if ALG_OCTETS[i] in (0, 1, 2, 3, 4, 7, 8, 9, 10, 11, 12, 13) else []) for i in range(len(ALG_OCTETS))])
 def msg_wrong_passphrase(body: bytes, same: bool, wrongq: bool, ai: int, g1: bytes, g2: bytes) -> bool:
     """
     pre: len(body) <= 2
